@@ -448,7 +448,7 @@ def gen_plan(seed: int, tier: str) -> dict:
             data = gprog.make_data(rng)  # each concurrent render gets its own data
         else:
             data = base
-        if cfg["nskey"] or loader in ("ns", "cns", "cnsf"):
+        if cfg["nskey"] or loader in ("ns", "cns", "cnsf", "nschoice"):
             if rng.random() < 0.5:
                 data = {**data, "tenant": rng.choice(["t1", "t2"])}
             if "name" in op and rng.random() < 0.5:
